@@ -518,11 +518,14 @@ Definition wf_rule (tbl : list elabel) (r : rule) : bool :=
 Fixpoint nodup_labels (l : list elabel) : bool :=
   match l with [] => true | x :: l' => negb (label_mem x l') && nodup_labels l' end.
 
+(** label names are unique (the table is a dict keyed by name), the start symbol is a registered
+    nonterminal, [_rules] is a dict keyed by lhs whose lists are never empty ([setdefault(...).append]) *)
 Definition wf_hrg (g : hrg) : bool :=
   nodup_strs (map el_name (h_labels g)) &&
   label_mem (h_start g) (h_labels g) && negb (el_term (h_start g)) &&
   nodup_labels (map fst (h_rules g)) &&
-  forallb (fun kl => forallb (fun r => elabel_eqb (r_lhs r) (fst kl) && wf_rule (h_labels g) r) (snd kl))
+  forallb (fun kl => negb (Nat.eqb (length (snd kl)) 0) &&
+                     forallb (fun r => elabel_eqb (r_lhs r) (fst kl) && wf_rule (h_labels g) r) (snd kl))
           (h_rules g).
 
 Definition all_explicit_graph (g : graph) : bool :=
@@ -1132,7 +1135,11 @@ Definition json_to_fgg_model (c : nat) (j : json) : res fgg :=
 (* ------------------------------------------------------------------------- *)
 (** * Oracle for "out-of-range node numbers": does a grammar document contain an attachment or
     external node number [z] with [p n z], [n] = number of nodes of that rule? *)
-Definition list_of (r : res json) : list json := match r with Ok (JList l) => l | _ => [] end.
+Definition list_of (r : res json) : list json :=
+  match r with
+  | Ok j => match jiter j with Ok l => l | Err _ => [] end
+  | Err _ => []
+  end.
 
 Definition num_sat (p : nat -> Z -> bool) (n : nat) (j : json) : bool :=
   match j with JInt z => p n z | _ => false end.
